@@ -366,7 +366,10 @@ def run_scenario(sc: dict):
                                                                                0xf7, T, sc.get('retries', 3))
     proto.keep_alive = bool(sc.get('ka', False))
     tr = Tracer(proto, P, X)
-    script = PEER.Script(sc.get('letters', ''), default=sc.get('default', 'N'), timeout=T, exc_code=sc.get('exc_code', 2))
+    # register contents served by the peer: 'tag' (register r holds r * 7 + 1), or every register the same 16-bit word given as 4 hex digits
+    pay = sc.get('payload', 'tag')
+    payload_fn = F.tag_payload if pay == 'tag' else (lambda reg, count, w=bytes.fromhex(pay): w * count)
+    script = PEER.Script(sc.get('letters', ''), default=sc.get('default', 'N'), timeout=T, exc_code=sc.get('exc_code', 2), payload_fn=payload_fn)
     results = {}
     hang = None
     first = True
